@@ -1,0 +1,82 @@
+//! Verification hooks (feature `verif-hooks`).
+//!
+//! `verif_hooks::sync` is a drop-in for the parts of `std::sync` used by the lazy partial cache.
+//! Its `Mutex` reports acquisition and release to an optional process-wide callback so that an
+//! external controlled scheduler can own the interleaving. Without a callback it is `std`'s.
+use std::sync::RwLock;
+
+/// About to acquire the lock with the given id (its address).
+pub const LOCK_ACQUIRE: u32 = 1;
+/// The lock with the given id was released.
+pub const LOCK_RELEASED: u32 = 2;
+
+static CALLBACK: RwLock<Option<fn(u32, usize)>> = RwLock::new(None);
+
+/// Install (or clear) the process-wide callback.
+pub fn install(cb: Option<fn(u32, usize)>) {
+    *CALLBACK.write().unwrap_or_else(|e| e.into_inner()) = cb;
+}
+
+fn emit(kind: u32, id: usize) {
+    let cb = *CALLBACK.read().unwrap_or_else(|e| e.into_inner());
+    if let Some(cb) = cb {
+        cb(kind, id);
+    }
+}
+
+/// Drop-in replacements for `std::sync` items.
+pub mod sync {
+    pub use std::sync::Arc;
+    use std::sync::{LockResult, PoisonError};
+
+    /// `std::sync::Mutex` that reports lock/unlock.
+    #[derive(Debug, Default)]
+    pub struct Mutex<T>(std::sync::Mutex<T>);
+
+    /// Guard of [`Mutex`].
+    #[derive(Debug)]
+    pub struct MutexGuard<'a, T> {
+        inner: Option<std::sync::MutexGuard<'a, T>>,
+        id: usize,
+    }
+
+    impl<T> Mutex<T> {
+        /// See `std::sync::Mutex::new`.
+        pub fn new(t: T) -> Self {
+            Mutex(std::sync::Mutex::new(t))
+        }
+
+        /// See `std::sync::Mutex::lock`.
+        pub fn lock(&self) -> LockResult<MutexGuard<'_, T>> {
+            let id = self as *const _ as usize;
+            super::emit(super::LOCK_ACQUIRE, id);
+            match self.0.lock() {
+                Ok(g) => Ok(MutexGuard { inner: Some(g), id }),
+                Err(p) => Err(PoisonError::new(MutexGuard {
+                    inner: Some(p.into_inner()),
+                    id,
+                })),
+            }
+        }
+    }
+
+    impl<T> std::ops::Deref for MutexGuard<'_, T> {
+        type Target = T;
+        fn deref(&self) -> &T {
+            self.inner.as_ref().expect("present until drop")
+        }
+    }
+
+    impl<T> std::ops::DerefMut for MutexGuard<'_, T> {
+        fn deref_mut(&mut self) -> &mut T {
+            self.inner.as_mut().expect("present until drop")
+        }
+    }
+
+    impl<T> Drop for MutexGuard<'_, T> {
+        fn drop(&mut self) {
+            drop(self.inner.take());
+            super::emit(super::LOCK_RELEASED, self.id);
+        }
+    }
+}
